@@ -21,6 +21,8 @@ func CheckByID(id string) Check {
 		return C11{}
 	case "C12":
 		return C12{}
+	case "C18":
+		return C18{}
 	case "C19":
 		return C19{}
 	}
